@@ -216,7 +216,8 @@ func verifParams(maxFirst uint8) (first uint64, freq uint64) {
 	f := sym.Uint8("first")
 	sym.Assume(f <= maxFirst)
 	q := sym.Uint8("freq")
-	sym.Assume(sym.And(q >= 1, q <= 3))
+	maxQ := uint8(2 + sym.Tier()) // quick tier: checkpoint after every or every second instance
+	sym.Assume(sym.And(q >= 1, q <= maxQ))
 	return sym.PickU64(uint64(f)), sym.PickU64(uint64(q))
 }
 
